@@ -512,11 +512,26 @@ func (c *conn) BeginTx(ctx context.Context, opts driver.TxOptions) (driver.Tx, e
 	} else if st := c.xaCur(); st != xaNone {
 		err = rmfail(st)
 	} else {
+		// like go-sql-driver/mysql: a non-default isolation level is sent as its own statement first
+		if lvl := sql.IsolationLevel(opts.Isolation); lvl != sql.LevelDefault {
+			name, ok := map[sql.IsolationLevel]string{sql.LevelRepeatableRead: "REPEATABLE READ", sql.LevelReadCommitted: "READ COMMITTED",
+				sql.LevelReadUncommitted: "READ UNCOMMITTED", sql.LevelSerializable: "SERIALIZABLE"}[lvl]
+			if !ok {
+				return nil, fmt.Errorf("mysql: unsupported isolation level: %d", opts.Isolation)
+			}
+			if _, err := c.journalled(JExec, "SET TRANSACTION ISOLATION LEVEL "+name, nil, func() ([]*result, error) { return []*result{{}}, nil }); err != nil {
+				return nil, err
+			}
+		}
+		if opts.ReadOnly {
+			e.SQL = "START TRANSACTION READ ONLY"
+		}
 		if c.tx != nil {
 			e.Implicit = true
 			c.implicitCommit()
 		}
 		c.tx = newTx()
+		c.tx.readOnly = opts.ReadOnly
 	}
 	e.Err = errClass(err)
 	if err != nil {
